@@ -27,6 +27,7 @@ func init() {
 	register(&propertyDef{ID: "C14", Level: "other", Run: runC14})
 	register(&propertyDef{ID: "C04", Level: "proof", Run: func(r *Run) error { return runRuntime(r, "C04") }})
 	register(&propertyDef{ID: "C12", Level: "proof", Run: func(r *Run) error { return runRuntime(r, "C12") }})
+	register(&propertyDef{ID: "C05", Level: "proof", Run: func(r *Run) error { return runRuntime(r, "C05") }})
 	register(&propertyDef{ID: "C18", Level: "proof", Run: func(r *Run) error {
 		u, keys, err := loadMainUnit()
 		if err != nil {
@@ -219,6 +220,8 @@ var runtimeFuncs = map[string][]string{
 	"C01": {"Init.matchDot", "Init.parse"},
 	"C03": {"tokens.Add", "tokens.Trim", "Init.add", "Init.parse"},
 	"C04": {"tokens.Tokens", "$T.Execute"},
+	"C05": {"tokens.Tokens", "tokens.AST", "print.printFunc", "node.print", "node.Print", "node.PrettyPrint", "tokens.PrintSyntaxTree", "tokens.WriteSyntaxTree",
+		"tokens.PrettyPrintSyntaxTree", "$T.PrintSyntaxTree", "$T.WriteSyntaxTree", "$T.SprintSyntaxTree"},
 	"C06": {"Init.memoize", "Init.memoizedResult", "Init.add", "Init.reset"},
 	"C11": {"Init.add", "Init.parse", "translatePositions", "parseError.Error"},
 	"C12": {"Init.reset", "Init.parse"},
